@@ -30,7 +30,7 @@ PROPS["C12"] = dict(
          "that the client's socket takes the last descriptor and accept() fails with EMFILE 1..3 times (the client is starved for 250 ms, the "
          "'too many open files' event is captured), then the descriptors are released: the client must be served and max_conns fresh gated clients "
          "must all be inside simultaneously. Non-trivial = at least one take that had to fail / at least one connection ended abnormally / accept failed.",
-    nontrivial=lambda tag, args, obs: ("O" in obs.split(" ")[0]) if tag == "c12t" else (True if tag == "c12e" else bool(re.search(r"[epdmauvEPDM]", args[1]))),
+    nontrivial=lambda tag, args, obs: ("O" in obs.split(" ")[0]) if tag == "c12t" else (True if tag == "c12e" else bool(re.search(r"[epdmauvwxEPDM]", args[1]))),
     klass=lambda tag, args, obs: ("c12t:size=%s:len=%d" % (args[0], len(args[1]))) if tag == "c12t" else ("c12e:max_conns=%s" % args[0] if tag == "c12e" else "c12:max_conns=%s:clients=%d" % (args[0], len(args[1]))),
     explanation="Model/Server.lean: TokenSet as (size, units in the channel, live tokens); the accept loop as a four-state machine, connection tasks as "
                 "a count, every way a connection can end as one event (its token is dropped). Theorems over all event sequences / API sequences: "
@@ -281,7 +281,7 @@ PROPS["C02"] = dict(
 
 PROPS["C06"] = dict(
     gen=[("tables", "ServlinVerif/Gen/CodeTables.lean")],
-    suites=["c06", "c07", "c14"],
+    suites=["c06", "c07", "c14", "c13w"],
     lean_modules=["ServlinVerif.Props.C06", "ServlinVerif.Props.C06RoundTrip", "ServlinVerif.Props.C06Chunked", "ServlinVerif.Props.C07", "ServlinVerif.Props.CodeTables"],
     audit="Audit/C06.lean",
     rule="write_http_response(scripted writer): every status code 100..999 with rotating content types; 1200 (8000) random responses: all "
@@ -291,7 +291,7 @@ PROPS["C06"] = dict(
          "1..n bytes per call with interleaved Pending. The wire is parsed by the strict independent parser Spec/RespParser. "
          "Non-trivial = at least one extra field or a non-empty body.",
     nontrivial=lambda tag, args, obs: (args[2] != "" or len(args[3]) > 2) if tag == "c06" else args[0] != "",
-    klass=lambda tag, args, obs: ("c06:body=%s:%s" % (args[3][:1], (obs.split(" r=")[1].split(" ")[0] if " r=" in obs else obs[:10]))) if tag == "c06" else ("c07" if tag == "c07" else "c14:header-list-ops"),
+    klass=lambda tag, args, obs: "c13w:response-in-flight-at-revocation" if tag == "c13" else ("c06:body=%s:%s" % (args[3][:1], (obs.split(" r=")[1].split(" ")[0] if " r=" in obs else obs[:10]))) if tag == "c06" else ("c07" if tag == "c07" else "c14:header-list-ops"),
     explanation="write_http_response modelled (head construction, duplicate guards, sized body via take(len), chunked body via C07's model, "
                 "writer failing at an offset). Theorems: C06_dup_refused (a colliding or second framing field => zero bytes written), "
                 "C06_head_shape (automatic fields and exactly one framing field, never both), C06_sized_body (Content-Length = bytes sent), "
@@ -488,7 +488,7 @@ PROPS["C10"] = dict(
 )
 
 PROPS["C11"] = dict(
-    suites=["c11", "c11c", "c07", "c04e"],
+    suites=["c11", "c11c", "c07", "c04e", "c11w"],
     lean_modules=["ServlinVerif.Props.C11", "ServlinVerif.Props.C07", "ServlinVerif.Props.C11Format"],
     audit="Audit/C11.lean",
     rule="c11c: the checked constructor Event::custom on 19 hand-picked types x 3 data and on every type of up to 4 (5) symbols over {a, SP, CR, LF, ':', e-acute} "
@@ -500,7 +500,7 @@ PROPS["C11"] = dict(
          "random programs of 3..14 steps; multi-threaded stress with 1..4 sender threads x {10, 200} events. Non-trivial = at least one event "
          "was accepted.",
     nontrivial=lambda tag, args, obs: "wire= " not in obs,
-    klass=lambda tag, args, obs: (tag + ":" + obs[:3]) if tag == "c11c" else ("c07:chunk-encoder" if tag == "c07" else "c04e:event-stream-in-sequence:" + args[2] if tag == "c04" else tag + ":done=" + obs.rsplit("done=", 1)[-1]),
+    klass=lambda tag, args, obs: (tag + ":" + obs[:3]) if tag == "c11c" else ("c07:chunk-encoder" if tag == "c07" else "c04e:event-stream-in-sequence:" + args[2] if tag == "c04" else "c11w:event-stream-response" if tag == "c08" else tag + ":done=" + obs.rsplit("done=", 1)[-1]),
     explanation="Channel + encoder modelled as a transition system over {send, clone, disconnect, drop, poll}; C11_invariant (induction over "
                 "arbitrary op sequences): delivered ++ queued = accepted in order, queue <= 50, wire = one chunk per delivered event (+ "
                 "terminator iff ended), ended only when every sender is gone; C11_never_blocks; C11_ends_when_all_gone. Format: the "
